@@ -99,9 +99,9 @@ theorem cellLongRows_length {c : Cell} {md : List String} {rs : List Row}
     ∃ fds, cleanFieldDicts c c.values.keys = .ok fds ∧ rs.length = (fds.map List.length).sum := by
   unfold cellLongRows at h
   cases hf : cleanFieldDicts c c.values.keys with
-  | error e => simp [hf, bind, Except.bind] at h
+  | error e => simp [hf, Except.map] at h
   | ok fds =>
-    simp only [hf, bind, Except.bind, pure, Except.pure] at h
+    simp only [hf, Except.map] at h
     cases h
     refine ⟨fds, rfl, ?_⟩
     exact zip_flatMap_length _ (by intro p; simp) fds (List.range fds.length) (by simp)
